@@ -306,6 +306,34 @@ def main(tier, seed):
         if bad:
             break
     res.bounds["nested_call_interleavings"] = nested
+    # every slice (start, stop, step) of a memoryview over short buffers: non-contiguous views are byte sequences too
+    nsl = 0
+    bad = False
+    for buf in (b"\x00\x01\x00\x02", b"\x01\x02\x03\x04\x05", b"\xff\x00\x80\x7f\x01\x09"):
+        mv = memoryview(buf)
+        rng = [None] + list(range(-len(buf), len(buf) + 1))
+        for start in rng:
+            for stop in rng:
+                for step in (1, 2, 3, -1, -2, -3):
+                    v = mv[start:stop:step]
+                    res.executions += 1
+                    res.checks += 1
+                    nsl += 1
+                    try:
+                        got = crc7(v)
+                    except Exception as e:  # noqa
+                        got = f"{type(e).__name__}: {e}"
+                    if got != serial(bytes(v)):
+                        res.violation("memoryview-slice-mismatch", f"crc7(memoryview({list(buf)})[{start}:{stop}:{step}]) = {got}, the bytes of the view are {list(bytes(v))} with CRC {serial(bytes(v))}", dict(kind="memoryview-slice", buffer=list(buf), slice=[start, stop, step]))
+                        bad = True
+                        break
+                if bad:
+                    break
+            if bad:
+                break
+        if bad:
+            break
+    res.bounds["memoryview_slices"] = nsl
     # many distinct messages, then every one of them again (bounded memo tables)
     for n in range(1, 41):
         mod = importlib.reload(crcmod)
